@@ -102,6 +102,9 @@ def run(tier, v):
                 else:
                     xframes.append(c10.relink(fr, link))
     xframes += traffic.unreadable(rng, nid, 36) + traffic.noise(rng, nid, 30)
+    # fixed frames of the recorded finding's input class (raw IP, sender 134.221.69.54, 40 octets: read as raw IP by the parsers, placed by
+    # a whole-frame hash by the dispatchers), so that its KNOWN-FINDING line does not depend on the seed
+    xframes += [traffic.pkt(4, (134, 221, 69, 54), (10, 2, 0, 2), 50310, 80, 100 + k, k, fl, ipid=nid())[14:] for k, fl in enumerate((0x02, 0x10, 0x11, 0x04, 0x10))]
     xreq = os.path.join(wd, "hash2.req")
     vlib.write_ndjson(xreq, [{"id": 0, "op": "hash", "ns": ns, "frames": [f.hex() for f in xframes]}])
     xout = os.path.join(wd, "hash2.out")
